@@ -415,5 +415,5 @@ def b_native(B):
 # ----------------------------------------------------------------------------- contracts of dependencies this property rests on (re-checked here)
 from pyvc.api import depends  # noqa: E402
 depends(PROPERTY, "C09", ["sample2v_imec", "sample2v_nidq"])      # per-channel volts-per-bit vector in on-disk order, 1 on sync
-depends(PROPERTY, "C08", ["joint_permutation"])                   # geometry_from_meta: the order stored as raw_channel_order
+depends(PROPERTY, "C08", ["joint_permutation", "default_layout"])                   # geometry_from_meta: the order stored as raw_channel_order
 depends(PROPERTY, "C11", ["open_int16", "open_cbin"])                 # "the whole calibrated array": the rows indexed are the complete frames of the file, whatever the metadata announce and whatever the warning option
